@@ -173,7 +173,11 @@ func (r *renderer) decl(d Decl) string {
 	case "struct":
 		fmt.Fprintf(&b, "type %s struct {\n%s}\n", d.Name, r.fields(d.Fields))
 	case "generic":
-		fmt.Fprintf(&b, "type %s[T %s] struct {\n%s}\n", d.Name, d.TParam, r.fields(d.Fields))
+		if strings.Contains(d.TParam, ",") { // the whole parameter list is given: "K ~int64, V any"
+			fmt.Fprintf(&b, "type %s[%s] struct {\n%s}\n", d.Name, d.TParam, r.fields(d.Fields))
+		} else {
+			fmt.Fprintf(&b, "type %s[T %s] struct {\n%s}\n", d.Name, d.TParam, r.fields(d.Fields))
+		}
 	case "named":
 		fmt.Fprintf(&b, "type %s %s\n", d.Name, r.te(*d.Under))
 	case "alias":
@@ -420,6 +424,9 @@ func Random(id int, rng *rand.Rand, o Opts) *Prog {
 		// a phantom type parameter: two instantiations with identical underlying types
 		add(Decl{K: "generic", Name: "Tagged", File: "other", TParam: "any", Fields: []Field{{Name: "ID", Type: Basic("int64")}}})
 		g.leafs = append(g.leafs, Inst("Tagged", Ref("", "IdItem")), Inst("Tagged", Ref("", "Label")))
+		// two type parameters, two instantiations sharing the first argument
+		add(Decl{K: "generic", Name: "Keyed", File: "other", TParam: "K ~int64, V any", Fields: []Field{{Name: "Key", Type: TE{K: "ref", Pkg: "", Name: "K"}}, {Name: "Val", Type: TE{K: "ref", Pkg: "", Name: "V"}}}})
+		add(Decl{K: "struct", Name: "UsesKeyed", Fields: []Field{{Name: "S", Type: Inst("Keyed", Ref("", "IdItem"), Basic("string"))}, {Name: "B", Type: Inst("Keyed", Ref("", "IdItem"), Basic("bool"))}}})
 		add(Decl{K: "struct", Name: "UsesTagged", Fields: []Field{{Name: "Owner", Type: Inst("Tagged", Ref("", "IdItem"))}, {Name: "Target", Type: Inst("Tagged", Ref("", "Label"))}, {Name: "Others", Type: Slice(Inst("Tagged", Ref("", "Label")))}}})
 	}
 	// unions
@@ -481,12 +488,23 @@ func Random(id int, rng *rand.Rand, o Opts) *Prog {
 		add(Decl{K: "named", Name: "LongRow", Under: &la})
 		add(Decl{K: "struct", Name: "HasLong", Fields: []Field{{Name: "Row", Type: Ref("", "LongRow")}, {Name: "Inline", Type: Array(17, Basic("int"))}, {Name: "Both", Type: Slice(Basic("int"))}, {Name: "Fixed", Type: Array(3, Basic("int"))}}})
 	}
+	if o.MapKeys {
+		// maps keyed by every kind of key Go can write: JSON object keys are strings
+		add(Decl{K: "struct", Name: "KeyKinds", Fields: []Field{{Name: "A", Type: Map(Basic("int64"), Basic("string"))}, {Name: "B", Type: Map(Basic("uint8"), Basic("bool"))},
+			{Name: "C", Type: Map(Basic("int"), Basic("float64"))}, {Name: "D", Type: Map(Ref("", "IdItem"), Basic("string"))}, {Name: "E", Type: Map(Ref("", "Kind"), Basic("bool"))},
+			{Name: "F", Type: Map(Ref("", "Label"), Basic("int"))}, {Name: "G", Type: Map(Ref("", "Color"), Basic("int"))}}})
+	}
 	// containers of anonymous containers
 	add(Decl{K: "struct", Name: "Nested", Fields: []Field{{Name: "Cells", Type: Slice(Map(Basic("string"), Basic("int")))}, {Name: "Grid", Type: Slice(Slice(Basic("int")))},
 		{Name: "ByKey", Type: Map(Basic("string"), Slice(Basic("string")))}, {Name: "Deep", Type: Map(Basic("string"), Map(Basic("string"), Basic("bool")))}}})
 	if o.Pointers {
 		// a pointer to a named type that is analysed / generated BEFORE the struct holding the pointer
 		add(Decl{K: "struct", Name: "Leafy", Fields: []Field{{Name: "V", Type: Basic("int")}, {Name: "S", Type: Basic("string")}}})
+		if o.Unions {
+			// a struct of the OTHER file that needs union code, only reachable through a pointer
+			add(Decl{K: "struct", Name: "InnerU", File: "other", Fields: []Field{{Name: "ID", Type: Basic("int")}, {Name: "U", Type: Ref("", "Shape")}}})
+			add(Decl{K: "struct", Name: "PtrToOther", Fields: []Field{{Name: "Name", Type: Basic("string")}, {Name: "P", Type: Ptr(Ref("", "InnerU"))}}})
+		}
 		add(Decl{K: "struct", Name: "PtrHolder", Fields: []Field{{Name: "Name", Type: Basic("string")}, {Name: "L", Type: Ptr(Ref("", "Leafy"))}, {Name: "N", Type: Ptr(Basic("int"))}, {Name: "Again", Type: Ptr(Ref("", "Leafy"))}}})
 	}
 	if o.Embedded {
